@@ -166,12 +166,37 @@ def val_entries():
     def fn(k):
         x = k.F("x")
         v = x.val()
-        return [("val() returns representation / 2^r", v * (1 << k.r) == k.v("x"))]
+        return [("val() returns representation / 2^r", v * (1 << k.r) == k.v("x")),
+                ("val() of a fixed-point value is a float whatever the value (an int would be traced as an integer by a later call)",
+                 type(v).__name__ in ("float", "SymReal"))]
     return [Entry("fxp_val_obs", fn, ("x",), tags={"fxp", "obs"})]
+
+
+def two_resolutions(k):
+    """the same int / float constants used under two values of fixedpoint.resolution in one run"""
+    fx = k.env.fx
+    r0 = k.r
+    obs = []
+    try:
+        for step, r in enumerate((r0, r0 + 2, r0)):
+            fx.resolution = r
+            x = fx.LinCombFxp(k.S("x"), False)        # representation x at the current resolution
+            one = 1 << r
+            xv = k.v("x")
+            obs.append(("step %d (resolution %d): x < 3 agrees with the represented numbers" % (step, r), ("eq", (x < 3).lc.value, (xv < 3 * one) * 1)))
+            obs.append(("step %d (resolution %d): x >= 1.5" % (step, r), ("eq", (x >= 1.5).lc.value, (xv >= (3 * one) // 2) * 1)))
+            obs.append(("step %d (resolution %d): 3 - x" % (step, r), ("eq", (3 - x).lc.value, 3 * one - xv)))
+            obs.append(("step %d (resolution %d): selection of the constant 3" % (step, r),
+                        ("eq", k.br.if_then_else(x < 3, x, 3).lc.value, xv + (1 - (xv < 3 * one)) * (3 * one - xv))))
+    finally:
+        fx.resolution = r0
+    return obs
 
 
 def build(n=4, tier="quick"):
     ents = []
+    ents.append(Entry("fxp_two_resolutions_obs", two_resolutions, ("x",), assume=(lambda k: [(k.v("x") > -64) & (k.v("x") < 64)]),
+                      tags={"fxp", "obs", "resolution"}))
     kinds_other = ["F", "S", "B", "i1", "f1"] if tier == "quick" else ["F", "S", "B", "i1", "i2", "f1", "f2", "f3"]
     for nm, f in OPS:
         kinds_nm = list(kinds_other)
